@@ -1,23 +1,14 @@
 #!/bin/bash
-# calibration aid: runs every distinct harness once in the thorough tier with a per-harness budget
-# usage: tools/calib_thorough.sh [budget_s] ; prints one line per (property,harness)
+# calibration aid: runs the harnesses listed in $2 (lines "<prop> <func>") once in the thorough tier
+# with a per-harness budget of $1 seconds; prints one line per harness
 cd /verif
-b=${1:-600}
-python3 - <<'PY' > /tmp/calib_list.txt
-import json
-c=json.load(open('/verif/harness/checks.json'))
-seen=set()
-for p,v in c.items():
-    for h in v['harnesses']:
-        key=(h['func'],json.dumps((h.get('params') or {}).get('thorough'),sort_keys=True))
-        if key in seen: continue
-        seen.add(key)
-        print(p,h['func'])
-PY
-sort -u /tmp/calib_list.txt | while read p f; do
+b=${1:-400}
+list=${2:-/tmp/calib_list2.txt}
+while read p f; do
+  [ -z "$p" ] && continue
   s=$(date +%s)
   timeout $((b*3+600)) ./bin/gosym check -prop $p -tier thorough -only $f -budget $b > /tmp/calib_${p}_$f.log 2>&1
   rc=$?
   e=$(date +%s)
   echo "$p $f exit=$rc $((e-s))s $(grep -E '^harness' /tmp/calib_${p}_$f.log | sed 's/.*paths=\([0-9]*\).*wall=\([0-9.]*\)s.*/paths=\1 wall=\2/' | tr '\n' ' ') $(grep -E 'INCOMPLETE|VIOLATION|SPURIOUS|VACUOUS|ERROR' /tmp/calib_${p}_$f.log | cut -c1-120 | head -3 | tr '\n' '|')"
-done
+done < $list
